@@ -295,7 +295,13 @@ func (e *Effects) mapRoot(caller *ssa.Function, site ssa.CallInstruction, callee
 			})
 		}
 		if !found {
-			return []string{"unknown"}
+			// a closure made elsewhere and handed over (a callback stored in a field):
+			// its captured variable is one cell shared by every invocation
+			name := fmt.Sprint(k)
+			if k < len(callee.FreeVars) {
+				name = callee.FreeVars[k].Name()
+			}
+			return []string{"captured:" + callee.String() + ":" + name}
 		}
 		return out
 	}
